@@ -1,5 +1,5 @@
 """C10 -- scheduler core (work in progress: metadata filled in below)."""
-from props.common import contract_tasks, lemma_tasks, TRUSTED_CORE
+from props.common import contract_tasks, lemma_tasks, TRUSTED_CORE, SCHED_ASSUMPTIONS
 
 PROPERTY = "C10"
 
@@ -11,11 +11,11 @@ def tasks(tier):
 
 
 TRUSTED_BASE = TRUSTED_CORE
-ASSUMPTIONS = []
+ASSUMPTIONS = SCHED_ASSUMPTIONS
 NOT_COVERED = []
-LEVEL_TEXT = 'Ghost assertion C10 at BEGIN from the postcondition of wait_for_dependencies (lazy consumers reached) and the invariant; all interleavings.'
+LEVEL_TEXT = 'Ghost assertion C10 at BEGIN from the postcondition of wait_for_dependencies (with lazy_stepping every direct consumer has reached the step time, adapted across group boundaries) and the invariant; all interleavings; connect_one records every consumer in successors.'
 DESIGN_REF = "DESIGN.md section 8 (C10)"
-LEVEL_NOTE = 'Trusted: pyvc encoder (Python semantics of DESIGN 3.4), the rely/guarantee meta-theorem for cooperative asyncio tasks (DESIGN 6, not mechanised), assumed contracts of asyncio/heapq, time/delay algebra axioms (each with provenance to a C08 obligation), static connection-table facts static_ok/trig_static (assumed here; established by the scenario.py contracts where built), non-real-time mode, z3/cvc5.'
-TECHNIQUE = "contract-based deductive verification (AST->z3 VCs on the real functions, global invariant, rely/guarantee at awaits)"
+LEVEL_NOTE = 'Proved for any number of simulators, any topology, any reply values and every interleaving, under the listed assumptions (evidence: assumptions, coverage.trusted_base). Trusted: pyvc encoder, the rely/guarantee meta-theorem, assumed contracts of asyncio/heapq, the time/delay algebra axioms (C08 provenance), static connection-table facts, z3/cvc5.'
+TECHNIQUE = 'contract-based deductive verification (AST->z3 VCs on the real functions, global invariant, rely/guarantee at awaits)'
 CLAIMED = True
-NA_REASON = "check under construction in this round"
+NA_REASON = ""
